@@ -571,6 +571,19 @@ func (l *Ledger) ConfirmBlock(block *pb.InternalBlock, isRoot bool) ConfirmStatu
 		l.xlog.Warn("block already exists in ledger", "blockid", utils.F(block.Blockid))
 		return confirmStatus
 	}
+	defer func() {
+		if !confirmStatus.Succ {
+			// a refused block may already have edited cached headers (handleFork flips in_trunk /
+			// next_hash of both branches, the pre-block gets a next_hash) without anything being
+			// written: forget the caches so that queries keep answering from the stored data
+			for _, key := range l.blkHeaderCache.Keys() {
+				l.blkHeaderCache.Del(key)
+			}
+			for _, key := range l.blockCache.Keys() {
+				l.blockCache.Del(key)
+			}
+		}
+	}()
 	dummyTransactions := []*pb.Transaction{}
 	realTransactions := block.Transactions // 真正的交易转存到局部变量
 	block.Transactions = dummyTransactions // block表不保存transaction详情
